@@ -5,18 +5,29 @@ is written to /repo or executed.
 A rules module lists
   MUTANTS     = [(name, relpath, old, new, expect_obligation_or_None), ...]
   EQUIVALENTS = [(name, relpath, old, new), ...]
-`old` must occur exactly once in the file (whitespace-exact); a variant whose
+`old` must occur exactly once in the ast.unparse()-normalised text of the file; a variant whose
 `old` no longer occurs is reported as stale (the tree moved on), not as a
 failure.  A mutant must still compile and must turn at least one obligation
 that was OK on the unchanged tree into VIOLATION / ANALYSIS-ERROR (the named one
 if given).  An equivalent must leave every obligation status unchanged.
 """
+import ast
 import multiprocessing
 import os
+import warnings
 
 from .report import OK, VIOL, ERR, KNOWN
 
 _G = {}
+_NORM = {}
+
+
+def _norm(ix, rel):
+    if rel not in ix.modules:
+        return None
+    if rel not in _NORM:
+        _NORM[rel] = ast.unparse(ix.modules[rel].tree)
+    return _NORM[rel]
 
 
 def _statuses(R):
@@ -27,13 +38,17 @@ def _one(args):
     kind, name, rel, old, new, expect = args
     from .run import run_property
     ix = _G['ix']
-    src = ix.modules[rel].source if rel in ix.modules else None
+    # variants are written against the *normalised* module text
+    # (ast.unparse), so repository formatting does not matter
+    src = _norm(ix, rel)
     if src is None or src.count(old) != 1:
         return (kind, name, 'stale', 'pattern occurs %s times in %s' % (
             0 if src is None else src.count(old), rel))
     msrc = src.replace(old, new)
     try:
-        compile(msrc, rel, 'exec')
+        with warnings.catch_warnings():
+            warnings.simplefilter('ignore')
+            compile(msrc, rel, 'exec')
     except SyntaxError as e:
         return (kind, name, 'broken-variant', 'does not compile: %s' % e)
     st, R = run_property(_G['prop'], 'quick', overrides={rel: msrc}, quiet=True,
